@@ -12,6 +12,14 @@ type RuntimeError struct{ Msg string }
 func (e RuntimeError) Error() string { return "runtime error: " + e.Msg }
 func (e RuntimeError) RuntimeError() {}
 
+// PlainRuntimeError is the dynamic type of the run-time panics whose message
+// has no "runtime error: " prefix in gc (runtime.plainError): assignment to
+// entry in nil map, close of nil/closed channel, send on closed channel.
+type PlainRuntimeError struct{ Msg string }
+
+func (e PlainRuntimeError) Error() string { return e.Msg }
+func (e PlainRuntimeError) RuntimeError() {}
+
 func IndexByte(b []byte, c byte) int {
 	for i := 0; i < len(b); i++ {
 		if b[i] == c {
